@@ -298,6 +298,13 @@ func checkC11(c C11Case, r *Rec) *Violation {
 	for i, x := range c.Extra {
 		vals[fmt.Sprintf("x%d", i)] = x.X
 	}
+	// the public normalisation helpers agree with the documented normalisation
+	vm := eval.ToValueMap(vals)
+	for i, n := range c.Names {
+		if !equalNormalised(vm[n], want[i]) || !equalNormalised(eval.UnifyType(c.Vals[i].X), want[i]) {
+			return Violf("C11: ToValueMap / UnifyType give %v (%T) / %v for %v (%T); the documented normalisation is %v (%T)", vm[n], vm[n], eval.UnifyType(c.Vals[i].X), c.Vals[i].X, c.Vals[i].X, want[i], want[i])
+		}
+	}
 	var ctx *eval.Ctx
 	if o := Safe(func() (eval.Value, error) { ctx = eval.NewCtxFromVars(cc, vals); return nil, nil }); o.Panic != nil {
 		return Violf("C11: NewCtxFromVars panics: %v\nkey map=%v", o, cc.VariableKeyMap)
